@@ -63,7 +63,10 @@ pub fn c29_case(src: &mut Src, obs: &mut Obs) -> CaseResult {
     let sb = src.bytes(20);
     let mut sch = Sch::new(sb);
     let seq = src.chance(180);
-    let k = 1 + src.below(8);
+    // now and then a burst longer than the queue of pending calls (64): calls wait in the transport,
+    // none may be dropped
+    let big = src.chance(20);
+    let k = if big { 65 + src.below(40) } else { 1 + src.below(8) };
     let gates: Vec<Gate> = (0..k).map(|_| Gate::default()).collect();
     let log = Log::default();
     let c = conn.clone();
@@ -84,10 +87,15 @@ pub fn c29_case(src: &mut Src, obs: &mut Obs) -> CaseResult {
     let mut calls: Vec<(RMsg, u32, bool)> = vec![];
     let mut ys = vec![];
     for id in 0..k as u32 {
-        let yields = src.below(6) as u32;
-        let gated = src.chance(60);
+        let yields = if big { 0 } else { src.below(6) as u32 };
+        let gated = !big && src.chance(60);
         let member = if src.chance(60) { "WorkMut" } else { "Work" };
-        let m = peer.call("/c29", Some(iface), member, vec![RVal::U(id), RVal::U(yields), RVal::B(gated)]);
+        let mut m = peer.call("/c29", Some(iface), member, vec![RVal::U(id), RVal::U(yields), RVal::B(gated)]);
+        // some calls expect no reply: they are handled like the others (in order, when the interface
+        // does not spawn), only unanswered
+        if src.chance(60) {
+            m.flags |= 1;
+        }
         calls.push((m, yields, gated));
         ys.push(yields);
     }
@@ -110,12 +118,14 @@ pub fn c29_case(src: &mut Src, obs: &mut Obs) -> CaseResult {
         order.swap(i, j);
     }
     let mut opened = 0usize;
-    let want = k;
+    let want = calls.iter().filter(|c| c.0.flags & 1 == 0).count();
+    let log_done = log.clone();
+    let all_finished = move || log_done.0.lock().unwrap().iter().filter(|e| e.0 == 'e').count() >= k;
     sched.idle_grace = 1;
     let oc = sched.run(&mut || sch.next(), 600_000, &mut |s| {
         peer.pump();
         let replies = peer.out.iter().filter(|m| m.mtype == msg::T_RETURN || m.mtype == msg::T_ERROR).count();
-        if replies >= want {
+        if replies >= want && all_finished() {
             return true;
         }
         // when nothing is runnable, open the next gate
@@ -132,13 +142,14 @@ pub fn c29_case(src: &mut Src, obs: &mut Obs) -> CaseResult {
     while oc != Outcome::Goal && opened < order.len() {
         gates[order[opened]].open();
         opened += 1;
+        let lg2 = log.clone();
         oc = sched.run(&mut || sch.next(), 600_000, &mut |_| {
             peer.pump();
-            peer.out.iter().filter(|m| m.mtype == msg::T_RETURN || m.mtype == msg::T_ERROR).count() >= want
+            peer.out.iter().filter(|m| m.mtype == msg::T_RETURN || m.mtype == msg::T_ERROR).count() >= want && lg2.0.lock().unwrap().iter().filter(|e| e.0 == 'e').count() >= k
         });
     }
     let lg = log.0.lock().unwrap().clone();
-    let describe = || format!("{} interface, {k} calls (yields {ys:?}, gated {:?}), gate order {order:?}, log {lg:?}", if seq { "spawn=false" } else { "spawn=true" }, calls.iter().map(|c| c.2).collect::<Vec<_>>());
+    let describe = || format!("{} interface, {k} calls (yields {ys:?}, gated {:?}, no reply expected {:?}), gate order {order:?}, log {lg:?}", if seq { "spawn=false" } else { "spawn=true" }, calls.iter().map(|c| c.2).collect::<Vec<_>>(), calls.iter().map(|c| c.0.flags & 1 == 1).collect::<Vec<_>>());
     if oc != Outcome::Goal {
         let n = peer.out.iter().filter(|m| m.mtype == msg::T_RETURN || m.mtype == msg::T_ERROR).count();
         return Err(Failure::new(format!("only {n} of {k} calls were answered ({oc:?}); {}", describe())));
@@ -146,6 +157,12 @@ pub fn c29_case(src: &mut Src, obs: &mut Obs) -> CaseResult {
     // exactly one reply per call, carrying its id
     for (i, (m, _, _)) in calls.iter().enumerate() {
         let rs: Vec<&RMsg> = peer.out.iter().filter(|r| r.get(msg::F_REPLY_SERIAL) == Some(&RVal::U(m.serial))).collect();
+        if m.flags & 1 == 1 {
+            if !rs.is_empty() {
+                return Err(Failure::new(format!("call {i} expects no reply but got {rs:?}; {}", describe())));
+            }
+            continue;
+        }
         if rs.len() != 1 || rs[0].mtype != msg::T_RETURN || rs[0].body.first() != Some(&RVal::U(i as u32)) {
             return Err(Failure::new(format!("call {i} got replies {rs:?}; {}", describe())));
         }
@@ -157,6 +174,9 @@ pub fn c29_case(src: &mut Src, obs: &mut Obs) -> CaseResult {
         }
     }
     obs.label(if seq { "spawn=false" } else { "spawn=true" });
+    if big {
+        obs.label("burst-longer-than-the-call-queue");
+    }
     let earlier_yields_more = (0..k).any(|i| (i + 1..k).any(|j| ys[i] > ys[j]));
     if k >= 3 && earlier_yields_more {
         obs.nontrivial(fnv(describe().as_bytes()));
